@@ -3,7 +3,7 @@
 # committed /verif (so that edits to /verif made meanwhile do not disturb the runs); meta.json is updated in /verif/seeded.
 P=$1; TIER=$2; shift 2
 SNAP=/tmp/verif-snap-$$
-git -C /verif worktree add -q --detach $SNAP HEAD || exit 2
+git -C /verif worktree add -q --detach $SNAP ${SNAP_REF:-HEAD} || exit 2
 export SEEDED_DIR=/verif/seeded
 printf '%s\n' "$@" | xargs -P $P -I{} sh -c "cd $SNAP && python3 tools/seedtest.py {} $TIER 2>&1 | tail -1"
 rm -rf $SNAP/.work
